@@ -12,6 +12,9 @@
  *                            (REFHEX = what snprintf makes of the same format + arguments)
  *   dump                     qb_log_blackbox_write_to_file, then prints that file
  *                            -> `live K rp wp`, `wrote N`, `file HEX`, then the print lines
+ *   maxline N                (C11) QB_LOG_CONF_MAX_LINE_LEN = N on the enabled blackbox target -> `ok` | `E…`
+ *                            (reset to QB_LOG_MAX_LEN at every `case`)
+ *   resize SIZE              (C11) QB_LOG_CONF_SIZE on the ENABLED target (_blackbox_reload)   -> `ok W` | `E…`
  * Print lines:  `dec TEXTHEX RET` per call of the message decoder (observed with
  *   -Wl,--wrap=qb_vsnprintf_deserialize), `o HEX` per stdout line after the ring header block
  *   (`o~ HEX` = last line without newline), `rc N`, `residue N`.
@@ -418,6 +421,7 @@ int main(void)
 	while ((nt = vl_read(t)) >= 0) {
 		if (strcmp(t[0], "case") == 0) {
 			bb_off();
+			if (log_inited) qb_log_ctl(QB_LOG_BLACKBOX, QB_LOG_CONF_MAX_LINE_LEN, QB_LOG_MAX_LEN);
 			printf("case %s\n", nt > 1 ? t[1] : "");
 		} else if (strcmp(t[0], "print") == 0 && nt == 2) {
 			size_t len;
@@ -435,6 +439,20 @@ int main(void)
 			printf("ok\n");
 		} else if (strcmp(t[0], "mk") == 0 && nt == 2) {
 			do_mk(strtol(t[1], NULL, 0));
+		} else if (strcmp(t[0], "maxline") == 0 && nt == 2) {
+			int32_t rc;
+			if (!bb_on) { printf("bad-op\n"); continue; }
+			rc = qb_log_ctl(QB_LOG_BLACKBOX, QB_LOG_CONF_MAX_LINE_LEN, (int32_t)strtol(t[1], NULL, 0));
+			if (rc != 0) printf("%s\n", vl_errname(rc)); else printf("ok\n");
+		} else if (strcmp(t[0], "resize") == 0 && nt == 2) {
+			int32_t rc;
+			struct qb_log_target *bt;
+			if (!bb_on) { printf("bad-op\n"); continue; }
+			rc = qb_log_ctl(QB_LOG_BLACKBOX, QB_LOG_CONF_SIZE, (int32_t)strtol(t[1], NULL, 0));
+			bt = qb_log_target_get(QB_LOG_BLACKBOX);
+			if (rc != 0) printf("%s\n", vl_errname(rc));
+			else if (!bt->instance) printf("no-instance\n");
+			else printf("ok %u\n", ((qb_ringbuffer_t *)bt->instance)->shared_hdr->word_size);
 		} else if (strcmp(t[0], "r") == 0) {
 			do_rec(t, nt);
 		} else if (strcmp(t[0], "dump") == 0) {
